@@ -91,6 +91,31 @@ def complex_capable(tdef, tries=12):
     return False
 
 
+def binary_complex_capable(tdef, tries=12):
+    """Does this template mostly draw complex-capable Calls with at least two differentiable arguments (a partner operand)?"""
+    from ..case import ReplayCase
+
+    class Probe(ReplayCase):
+        def __init__(self, k):
+            super().__init__([])
+            self._k = k
+            self._n = 0
+
+        def _draw(self, lo, hi):
+            self._n += 1
+            return lo + (self._k * 7919 + self._n * 104729) % (hi - lo + 1)
+
+    good = drawn = 0
+    for k in range(tries):
+        try:
+            call = tdef.draw(Probe(k))
+        except Exception:
+            continue
+        drawn += 1
+        good += bool(call.cplx and len(call.shapes) >= 2)
+    return drawn > 0 and 2 * good >= drawn
+
+
 def template(name, family, weight=1, has_kink=False):
     def deco(fn):
         TEMPLATES[name] = TemplateDef(name, fn, family, weight, has_kink)
